@@ -44,7 +44,10 @@ CAUGHT = {
  "C15-2": ("C15", "statements_separated_without_a_rotation_point (daily / hourly / minutely)", ""),
 }
 
-src_of = lambda sid: "/tmp/wt/%s/_seeded/%s" % (sid.split('-')[0], sid.split('-')[1])
+def src_of(sid):
+    prop, n = sid.split('-')[0], int(sid.split('-')[1])
+    # waves 1-4: /tmp/wt/<prop>/_seeded/{1,2}; wave 5 (ids -3, -4): /tmp/w5/<prop>/_seeded/{1,2}
+    return "/tmp/wt/%s/_seeded/%d" % (prop, n) if n <= 2 else "/tmp/w5/%s/_seeded/%d" % (prop, n - 2)
 done = []
 for sid, (check, cls, note) in sorted(CAUGHT.items()):
     res = "/tmp/seeded_verify/%s.result" % sid
